@@ -139,6 +139,20 @@ def interface_checks(ctx, name, obj, freq, cj, tol):
         if np.abs(f1[k](a, b) - r[k]).max() > tol * scale or np.abs(f2[k](a, b, freq) - r[k]).max() > tol * scale:
             ctx.violate(f"{name}: as_angles_funcs / as_freq_angles_funcs ['{k}'] is not the '{k}' entry of the plain call", cj, {"kind": "funcs", "scatterer": name})
             return
+    # a keyword given at call time overrides the bound frequency for that call only
+    other = freq * 1.37
+    r_other = obj(a, b, other)
+    for k in KEYS:
+        try:
+            v_over = f1[k](a, b, frequency=other)
+            v_again = f1[k](a, b)
+        except Exception as e:
+            ctx.violate(f"{name}: as_angles_funcs()['{k}'] refuses a frequency keyword at call time: {type(e).__name__}", cj, {"kind": "funcs", "scatterer": name})
+            break
+        if np.abs(v_over - r_other[k]).max() > tol * scale or np.abs(v_again - r[k]).max() > tol * scale:
+            ctx.violate(f"{name}: as_angles_funcs(f0)['{k}'] called once with frequency=f1 — the override is not the value at f1, or later calls without "
+                        "the keyword no longer answer for f0", cj, {"kind": "funcs_state", "scatterer": name})
+            break
     try:
         data = obj.as_multi_freq_matrices_obj(freqs, n)
         rd = data(a, b, freq)
